@@ -245,6 +245,24 @@ std::vector<Stmt> gen_routine_body(GenCtx &c, int maxn) {
   c.nlabels = 0; c.label_used.clear();
   c.budget = c.gp.max_stmts;
   std::vector<Stmt> body = gen_block(c, 0, maxn);
+  if (c.gp.stop_in_callee && c.routine >= 0 && c.rng.chance(1, 2)) {
+    Stmt st; st.k = Stmt::STOP;
+    body.insert(body.begin() + c.rng.below(body.size() + 1), st);
+  }
+  if (c.gp.init_vars) {
+    // main initialises most of its variables; a routine only some locals (never its parameters)
+    std::vector<Stmt> init;
+    for (size_t i = 0; i < c.vars.size(); i++) {
+      if (c.routine >= 0 && i < c.ast.defs[(size_t)c.routine].params.size()) continue;
+      if (!c.rng.chance(c.routine < 0 ? 3 : 1, 4)) continue;
+      bool dup = false;
+      for (size_t k = 0; k < i; k++) if (c.vars[k] == c.vars[i]) dup = true;
+      if (dup) continue;
+      Stmt a; a.k = Stmt::ASSIGN; a.var = c.vars[i]; a.val.k = Val::CONST; a.val.c = c.gp.boundary_values && c.rng.chance(1, 3) ? pick_const(c) : c.rng.range(1, 4);
+      init.push_back(a);
+    }
+    body.insert(body.begin(), init.begin(), init.end());
+  }
   if (c.nlabels) place_labels(c, body);
   return body;
 }
@@ -480,6 +498,10 @@ struct Renderer {
   void sep(std::string &text, int &line, bool brk) {
     if (p.layout.style == 0) {
       if (brk) { text += "\n"; line++; } else text += " ";
+      return;
+    }
+    if (p.layout.style == 2) {   // dense: one line, a rare break
+      if (rng.chance(1, 25)) { text += "\n"; line++; } else text += " ";
       return;
     }
     int w = (int)rng.below(100);
